@@ -255,6 +255,7 @@ func sharedPool(r *vh.RNG, nCore int) valuePool {
 	p.tops = append(p.tops, near, common.BytesToHash([]byte{1}))
 	return p
 }
+
 type scriptLog struct {
 	topics []common.Hash
 	data   []byte
@@ -320,9 +321,9 @@ type world struct {
 	c        *vh.Ctx
 	m        *vh.Model
 	db       aquadb.Database
-	headers  []*types.Header   // by number, version set
-	receipts []types.Receipts  // by number, as read back from the database
-	blooms   []types.Bloom     // header blooms
+	headers  []*types.Header  // by number, version set
+	receipts []types.Receipts // by number, as read back from the database
+	blooms   []types.Bloom    // header blooms
 	addrPool []common.Address
 	topPool  []common.Hash
 	allLogs  []*types.Log
@@ -348,18 +349,20 @@ func buildWorld(c *vh.Ctx, m *vh.Model, n int, density int, gap func(bn uint64) 
 	w.topPool = pool.tops
 	w.addrPool = pool.addrs
 	rt := func() common.Hash { return pool.tops[r.Intn(len(pool.tops))] }
-	tl := func(ts ...common.Hash) scriptLog { return scriptLog{topics: ts, data: r.Bytes([]int{0, 1, 31, 32, 33, 64}[r.Intn(6)])} }
+	tl := func(ts ...common.Hash) scriptLog {
+		return scriptLog{topics: ts, data: r.Bytes([]int{0, 1, 31, 32, 33, 64}[r.Intn(6)])}
+	}
 	E := emitters
 	zero := common.Hash{}
 	scripts := []script{
-		0: {logs: []scriptLog{tl(lpad(E[0]))}},                                               // topic = own padded address
-		1: {logs: []scriptLog{tl(zero), tl(zero, zero)}},                                      // zero address emits the zero topic (= its padded address)
-		2: {logs: []scriptLog{tl(rt(), lpad(E[2])), tl(lpad(E[2]))}},                          // own padded address at position 1, then 0
-		3: {logs: []scriptLog{tl()}},                                                          // LOG0 only: target of the callers
+		0: {logs: []scriptLog{tl(lpad(E[0]))}},                                                                        // topic = own padded address
+		1: {logs: []scriptLog{tl(zero), tl(zero, zero)}},                                                              // zero address emits the zero topic (= its padded address)
+		2: {logs: []scriptLog{tl(rt(), lpad(E[2])), tl(lpad(E[2]))}},                                                  // own padded address at position 1, then 0
+		3: {logs: []scriptLog{tl()}},                                                                                  // LOG0 only: target of the callers
 		4: {pre: []scriptLog{tl(lpad(E[3]), rt())}, calls: []common.Address{E[3]}, logs: []scriptLog{tl(rpad(E[4]))}}, // names E3, then E3 emits
-		5: {logs: []scriptLog{tl(dirtyPad(E[5])), tl(shifted(E[5]), rpad(E[5]))}},             // differs only in padding / position
-		6: {logs: []scriptLog{tl(lpad(E[0]), lpad(E[2]), rt(), lpad(E[0]))}},                  // 4 topics naming other emitters, one twice
-		7: {calls: []common.Address{E[0], E[2]}, logs: []scriptLog{tl(lpad(E[0])), tl(lpad(E[7]), lpad(E[7]))}}, // emitters first, their names after
+		5: {logs: []scriptLog{tl(dirtyPad(E[5])), tl(shifted(E[5]), rpad(E[5]))}},                                     // differs only in padding / position
+		6: {logs: []scriptLog{tl(lpad(E[0]), lpad(E[2]), rt(), lpad(E[0]))}},                                          // 4 topics naming other emitters, one twice
+		7: {calls: []common.Address{E[0], E[2]}, logs: []scriptLog{tl(lpad(E[0])), tl(lpad(E[7]), lpad(E[7]))}},       // emitters first, their names after
 	}
 	for len(scripts) < len(emitters) {
 		var sc script
@@ -601,15 +604,21 @@ func (b *backend) refresh() {
 	}
 }
 
-func (b *backend) ChainDb() aquadb.Database                            { return b.w.db }
-func (b *backend) GetHeaderVersion(h *big.Int) params.HeaderVersion  { return cfg.GetBlockVersion(h) }
-func (b *backend) EventMux() *event.TypeMux                            { return b.mux }
-func (b *backend) SubscribeTxPreEvent(ch chan<- core.TxPreEvent) event.Subscription { return b.feed.Subscribe(ch) }
-func (b *backend) SubscribeChainEvent(ch chan<- core.ChainEvent) event.Subscription { return b.feed.Subscribe(ch) }
+func (b *backend) ChainDb() aquadb.Database                         { return b.w.db }
+func (b *backend) GetHeaderVersion(h *big.Int) params.HeaderVersion { return cfg.GetBlockVersion(h) }
+func (b *backend) EventMux() *event.TypeMux                         { return b.mux }
+func (b *backend) SubscribeTxPreEvent(ch chan<- core.TxPreEvent) event.Subscription {
+	return b.feed.Subscribe(ch)
+}
+func (b *backend) SubscribeChainEvent(ch chan<- core.ChainEvent) event.Subscription {
+	return b.feed.Subscribe(ch)
+}
 func (b *backend) SubscribeRemovedLogsEvent(ch chan<- core.RemovedLogsEvent) event.Subscription {
 	return b.feed.Subscribe(ch)
 }
-func (b *backend) SubscribeLogsEvent(ch chan<- []*types.Log) event.Subscription { return b.feed.Subscribe(ch) }
+func (b *backend) SubscribeLogsEvent(ch chan<- []*types.Log) event.Subscription {
+	return b.feed.Subscribe(ch)
+}
 func (b *backend) BloomStatus() (uint64, uint64) {
 	if b.node != nil {
 		return b.node.BloomStatus()
@@ -1017,7 +1026,7 @@ func (w *world) runQuery(bk *backend, b, e int64, cr criteria, rangeCls string) 
 		violate(c, "logs-query-inexact/"+kind+"/"+cas, "Filter.Logs differs from the brute-force scan of the canonical receipts",
 			map[string]string{"case": cas, "filter": obs, "bruteforce": tagsTok(want), "step": rangeCls,
 				"canonical_head": fmt.Sprintf("%d %s", w.head(), w.headers[w.head()].Hash().Hex()),
-				"how": "c16 -seed <seed of this run>; `step` names the point of the generated history (reorg-history steps: h<k>-<state>) at which this query was asked"})
+				"how":            "c16 -seed <seed of this run>; `step` names the point of the generated history (reorg-history steps: h<k>-<state>) at which this query was asked"})
 	}
 	if obs == "err" {
 		violate(c, "logs-query-error/"+cas, "Filter.Logs returned an error on a healthy backend", map[string]string{"case": cas})
@@ -1132,7 +1141,9 @@ type fakeChain struct {
 	feed event.Feed
 }
 
-func (f *fakeChain) CurrentHeader() *types.Header { return types.CopyHeader(f.w.headers[len(f.w.headers)-1]) }
+func (f *fakeChain) CurrentHeader() *types.Header {
+	return types.CopyHeader(f.w.headers[len(f.w.headers)-1])
+}
 func (f *fakeChain) SubscribeChainEvent(ch chan<- core.ChainEvent) event.Subscription {
 	return f.feed.Subscribe(ch)
 }
@@ -1435,7 +1446,7 @@ func bloomLevel(c *vh.Ctx, m *vh.Model) {
 		checkReceiptSet(c, m, r, p, rs, "createbloom/relation/"+names[i])
 	}
 	// random log sets over the shared pool
-	nSets := c.Scale(40, 400)
+	nSets := c.Scale(30, 400)
 	for i := 0; i < nSets; i++ {
 		var rs types.Receipts
 		nr := r.Intn(4)
@@ -1553,6 +1564,62 @@ func min(a, b int) int {
 	return b
 }
 
+// prodQueries: queries against an index built by the production ChainIndexer+BloomIndexer at `size`
+// (rows read from the database exactly as aqua/bloombits.go does), `got` sections stored
+func (w *world) prodQueries(size, got uint64, r *vh.RNG) {
+	c := w.c
+	// deterministic: through the production index, the emitters called alone in blocks 1..22 and their
+	// padded-address topics; windows around sections*size
+	prodBk := func() *backend {
+		return &backend{w: w, size: size, sections: got, rows: w.dbRows(size), threads: 3, batch: 16, mux: new(event.TypeMux)}
+	}
+	if got > 0 {
+		for i := 0; i < 11; i++ {
+			a := w.addrPool[i]
+			w.runQuery(prodBk(), 0, 40, criteria{addrs: []common.Address{a}}, "prod-sweep/addr")
+			w.runQuery(prodBk(), 3, 37, criteria{tops: [][]common.Hash{{lpad(a)}}}, "prod-sweep/topic@0")
+			w.runQuery(prodBk(), 0, 40, criteria{tops: [][]common.Hash{nil, {lpad(a), rpad(a)}}}, "prod-sweep/topic@1")
+		}
+		ind := int64(got * size)
+		for _, rg := range [][2]int64{{ind - 9, ind + 9}, {ind - 1, ind}, {ind, ind + 1}, {ind - 8, ind - 1}, {ind - 3, -1}, {ind - 70, ind - 60}} {
+			w.runQuery(prodBk(), rg[0], rg[1], criteria{}, "prod-sweep/boundary")
+			w.runQuery(prodBk(), rg[0], rg[1], criteria{addrs: []common.Address{w.addrPool[2], w.addrPool[0]}}, "prod-sweep/boundary")
+		}
+	}
+	// queries against the production index (rows read from the database exactly as aqua/bloombits.go does)
+	nq := c.Scale(8, 60)
+	if got == 0 {
+		nq = c.Scale(3, 10)
+	}
+	for q := 0; q < nq; q++ {
+		bk := &backend{w: w, size: size, sections: got, rows: w.dbRows(size), threads: 3, batch: 16, mux: new(event.TypeMux)}
+		cr := w.genCriteria(r)
+		b, e, cls := w.genRange(r, got*size)
+		// keep the scanned part small for the model: windows of at most ~300 blocks unless fully indexed
+		if got == 0 {
+			if b != -1 && e != -1 && e-b > 300 {
+				e = b + 300
+			} else if e == -1 && b != -1 && int64(w.head())-b > 300 {
+				b = int64(w.head()) - int64(r.Intn(300))
+			}
+		}
+		w.runQuery(bk, b, e, cr, "prod-index,"+cls)
+	}
+	if got > 0 {
+		for q := 0; q < c.Scale(6, 40); q++ {
+			bk := &backend{w: w, size: size, sections: got, rows: w.dbRows(size), threads: 3, batch: 16, mux: new(event.TypeMux)}
+			cr := w.genCriteria(r)
+			hi := got*size - 1
+			b := uint64(r.Intn(int(hi) + 1))
+			e := b + uint64(r.Intn(int(hi-b)+1))
+			if q == 0 {
+				b, e = 0, hi
+			}
+			w.runMatcher(bk, b, e, cr)
+		}
+	}
+}
+
 // ---------------------------------------------------------------- reorg histories
 
 // Histories over one database and long-lived service objects: index + query on fork A, make fork B
@@ -1578,7 +1645,7 @@ func reorgHistories(c *vh.Ctx, m *vh.Model, w *world, forkAt int, withH1 bool, s
 	stored := func(size uint64) uint64 {
 		var n uint64
 		cmd := "known"
-		if !askedStored[size] {
+		if !askedStored[size] && (size == 2048 || c.Thorough()) {
 			askedStored[size], cmd = true, "stored"
 		}
 		fmt.Sscan(m.Ask(fmt.Sprintf("%s %d 256", cmd, size)), &n)
@@ -1635,6 +1702,9 @@ func reorgHistories(c *vh.Ctx, m *vh.Model, w *world, forkAt int, withH1 bool, s
 		w.switchCanonical(chainA, fc)
 		bk.sections = step(ix, 2048, "h1-forkA")
 		w.historyQueries(bk, "h1-forkA", int64(forkAt))
+		cs := w.commitSection(2048, 0)
+		c.Correspond("BloomIndexer.Commit(section 0)~process_section", "section 2048 0", cs, m.Ask("section 2048 0"))
+		w.prodQueries(2048, bk.sections, c.Rng.Fork())
 		if c.Thorough() {
 			w.switchCanonical(chainB, fc) // and back: a second reorg over the same sections
 			bk.sections = step(ix, 2048, "h1-back-to-B")
@@ -1651,7 +1721,7 @@ func main() {
 	c := vh.Init("C16")
 	m := c.StartModel()
 	defer m.Close()
-	c.Res.Rule = "ONE shared value pool per world: emitter addresses (incl. 0x0100 and the zero address) and topics in deliberate relations (topic = left-padded / right-padded emitter address, same 20 bytes with dirty padding or at another offset, zero word, near pair, addresses cut out of random topics). Bloom level: every relation x every placement (same log, topic before/after the emitter's log in one receipt, other receipt of the block, repeated topic/address) plus random log sets over the pool: CreateBloom/LogsBloom(every receipt)/BloomLookup/filterLogs/bloomFilter vs model, no-false-negative oracle over every address and topic of every log on both the receipt and the block bloom. Chain level: core.GenerateChain (faker) calling LOG0-LOG4 emitter contracts with designed scripts (own padded address as topic, caller naming a callee before/after the callee emits, 4-topic logs, reverting contract), every emitter called alone in blocks 1..22, logs forced on both sides of every 64-block boundary, around 2040..2056 and at the head; deterministic sweeps: every pool address / topic (positions 0..3) / special shape (trailing and inner empty alternative lists incl. explicit empty, 4-5 positions, duplicate addresses/alternatives/rules, address with its own related topics) through the indexed, half-indexed and unindexed path; range shapes (ends not aligned to 8 or to the section size, begin inside one section and end in a later one, everything within +-3 of sections*size and of head, -1 ends, begin>end) x index progress; then random criteria/ranges; section sizes 8/64 (harness-built index via bloombits.Generator, any progress) and 2048 (production ChainIndexer+BloomIndexer; 4096 in the thorough tier); operation sequences on bloombits.Generator. A case is distinct and non-trivial when its input is new and it has at least one hit (query/matcher: non-empty expected result; bloom: non-empty log set; generator: fully generated)"
+	c.Res.Rule = "ONE shared value pool per world: emitter addresses (incl. 0x0100 and the zero address) and topics in deliberate relations (topic = left-padded / right-padded emitter address, same 20 bytes with dirty padding or at another offset, zero word, near pair, addresses cut out of random topics). Bloom level: every relation x every placement (same log, topic before/after the emitter's log in one receipt, other receipt of the block, repeated topic/address) plus random log sets over the pool: CreateBloom/LogsBloom(every receipt)/BloomLookup/filterLogs/bloomFilter vs model, no-false-negative oracle over every address and topic of every log on both the receipt and the block bloom. Chain level: core.GenerateChain (faker) calling LOG0-LOG4 emitter contracts with designed scripts (own padded address as topic, caller naming a callee before/after the callee emits, 4-topic logs, reverting contract), every emitter called alone in blocks 1..22, logs forced on both sides of every 64-block boundary, around 2040..2056 and at the head; deterministic sweeps: every pool address / topic (positions 0..3) / special shape (trailing and inner empty alternative lists incl. explicit empty, 4-5 positions, duplicate addresses/alternatives/rules, address with its own related topics) through the indexed, half-indexed and unindexed path; range shapes (ends not aligned to 8 or to the section size, begin inside one section and end in a later one, everything within +-3 of sections*size and of head, -1 ends, begin>end) x index progress; then random criteria/ranges; section sizes 8/64 (harness-built index via bloombits.Generator, any progress) and 2048 (production ChainIndexer+BloomIndexer; 4096 in the thorough tier); operation sequences on bloombits.Generator. Reorg histories on one database with long-lived service objects: the production bloom node (NewBloomIndexer at 4096 + startBloomHandlers + AquaApiBackend.BloomStatus/ServiceFilter, via a verif hook) and the production indexer at 2048 are indexed and queried on fork A (4361 blocks), then fork B (dense logs exactly where A has none, forking at 3900 inside indexed sections, deeper than the 256 confirmations) is made canonical with the ChainEvents a reorg posts, first too short for the section to be confirmed again (valid sections drop, unindexed answers), then long enough (re-indexed), and the same queries (same bits, caches warm: replaced blocks, around the fork, old+new sections, section end, whole chain) are asked at every step; thorough: reorgs back and forth and a 2-section chain with a partial rollback. A case is distinct and non-trivial when its input is new and it has at least one hit (query/matcher: non-empty expected result; bloom: non-empty log set; generator: fully generated)"
 
 	log.Root().SetHandler(log.LvlFilterHandler(log.LvlCrit, log.StreamHandler(os.Stderr, log.TerminalFormat(false))))
 	t0 := time.Now()
@@ -1729,7 +1799,7 @@ func main() {
 				short.runMatcher(newBk(full), uint64(rg[0]), uint64(rg[1]), cr)
 			}
 		}
-		nq := c.Scale(110, 600)
+		nq := c.Scale(80, 600)
 		for q := 0; q < nq; q++ {
 			sections := uint64(r.Intn(int(full) + 1))
 			if q%5 == 0 {
@@ -1764,7 +1834,7 @@ func main() {
 	// ---- the production indexer: which section sizes can it index at all.  The long chain is fork A of the
 	// reorg histories below: no transactions in the blocks after the fork point that fork B will fill
 	const forkAt = 3900
-	sizes := []uint64{8, 64, 2048}
+	sizes := []uint64{8, 64} // 2048 and 4096 are indexed in the reorg histories below
 	longLen := 4096 + 256 + 8
 	long := buildWorld(c, m, longLen, 6, func(bn uint64) bool { return bn > forkAt && bn < 4088 })
 	stage("long chain build")
@@ -1788,56 +1858,7 @@ func main() {
 		if known != "0" && got == 0 {
 			c.Note("bloombits-bitset-bound-uses-sections: section size %d: %s sections are confirmed but the production indexer stores 0 (Generator.Bitset rejects bit index >= %d: %s); log queries stay exact through the unindexed path (checked below with BloomStatus sections = 0), they are only not accelerated", size, known, size, cs)
 		}
-		// deterministic: through the production index, the emitters called alone in blocks 1..22 and their
-		// padded-address topics; windows around sections*size
-		prodBk := func() *backend {
-			return &backend{w: long, size: size, sections: got, rows: long.dbRows(size), threads: 3, batch: 16, mux: new(event.TypeMux)}
-		}
-		if got > 0 {
-			for i := 0; i < 11; i++ {
-				a := long.addrPool[i]
-				long.runQuery(prodBk(), 0, 40, criteria{addrs: []common.Address{a}}, "prod-sweep/addr")
-				long.runQuery(prodBk(), 3, 37, criteria{tops: [][]common.Hash{{lpad(a)}}}, "prod-sweep/topic@0")
-				long.runQuery(prodBk(), 0, 40, criteria{tops: [][]common.Hash{nil, {lpad(a), rpad(a)}}}, "prod-sweep/topic@1")
-			}
-			ind := int64(got * size)
-			for _, rg := range [][2]int64{{ind - 9, ind + 9}, {ind - 1, ind}, {ind, ind + 1}, {ind - 8, ind - 1}, {ind - 3, -1}, {ind - 70, ind - 60}} {
-				long.runQuery(prodBk(), rg[0], rg[1], criteria{}, "prod-sweep/boundary")
-				long.runQuery(prodBk(), rg[0], rg[1], criteria{addrs: []common.Address{long.addrPool[2], long.addrPool[0]}}, "prod-sweep/boundary")
-			}
-		}
-		// queries against the production index (rows read from the database exactly as aqua/bloombits.go does)
-		nq := c.Scale(8, 60)
-		if got == 0 {
-			nq = c.Scale(3, 10)
-		}
-		for q := 0; q < nq; q++ {
-			bk := &backend{w: long, size: size, sections: got, rows: long.dbRows(size), threads: 3, batch: 16, mux: new(event.TypeMux)}
-			cr := long.genCriteria(r)
-			b, e, cls := long.genRange(r, got*size)
-			// keep the scanned part small for the model: windows of at most ~300 blocks unless fully indexed
-			if got == 0 {
-				if b != -1 && e != -1 && e-b > 300 {
-					e = b + 300
-				} else if e == -1 && b != -1 && int64(long.head())-b > 300 {
-					b = int64(long.head()) - int64(r.Intn(300))
-				}
-			}
-			long.runQuery(bk, b, e, cr, "prod-index,"+cls)
-		}
-		if got > 0 {
-			for q := 0; q < c.Scale(6, 40); q++ {
-				bk := &backend{w: long, size: size, sections: got, rows: long.dbRows(size), threads: 3, batch: 16, mux: new(event.TypeMux)}
-				cr := long.genCriteria(r)
-				hi := got*size - 1
-				b := uint64(r.Intn(int(hi) + 1))
-				e := b + uint64(r.Intn(int(hi-b)+1))
-				if q == 0 {
-					b, e = 0, hi
-				}
-				long.runMatcher(bk, b, e, cr)
-			}
-		}
+		long.prodQueries(size, got, r)
 		stage(fmt.Sprintf("long chain size %d", size))
 	}
 	reorgHistories(c, m, long, forkAt, true, stage)
